@@ -15,6 +15,7 @@ import (
 	"go.lstv.dev/util/uu"
 	"pgregory.net/rapid"
 
+	"verifharness/ref"
 	"verifharness/vkit"
 )
 
@@ -64,12 +65,25 @@ func judge(c Case, w *vkit.W) {
 		}
 		return
 	}
+	if w.Flip() {
+		// the first formatting of this value in the process goes into a buffer that already holds other text
+		_, _ = c.call([]byte("earlier text "))
+	}
 	refOut, err := c.call(nil)
 	if err != nil {
 		w.Fail(c, "formatter-error", fmt.Sprintf("%s formatter into nil: %v", c.Pkg, err))
 		return
 	}
 	refCopy := append([]byte{}, refOut...)
+	if c.Pkg == "sem" {
+		want := ref.SemText(c.Major, c.Minor, c.Patch, c.Pre, c.Build)
+		if c.Flags&int(sem.FormatTag) != 0 {
+			want = "v" + want
+		}
+		if string(refOut) != want {
+			w.Fail(c, "not-the-value's-own-text", fmt.Sprintf("sem formatter(nil, %+v, flags=%#x) = %q, want %q", sem.Ver{Major: c.Major, Minor: c.Minor, Patch: c.Patch, PreRelease: c.Pre, Build: c.Build}, c.Flags, refOut, want))
+		}
+	}
 	prefix := []byte(c.Prefix)
 	backing := make([]byte, len(prefix)+c.Spare)
 	copy(backing, prefix)
@@ -148,7 +162,8 @@ func values(pkg string) []Case {
 		}
 	case "sem":
 		max := ^uint64(0)
-		for _, v := range []Case{{}, {Major: 1, Minor: 2, Patch: 3}, {Major: 1, Pre: "alpha.1"}, {Major: 1, Build: "001"}, {Major: max, Minor: max, Patch: max, Pre: "rc.1-x", Build: "b.2"},
+		for _, v := range []Case{{Major: 1, Minor: 2, Patch: 3, Build: "linux.amd64"}, {Major: 1, Minor: 2, Patch: 3, Build: "darwin.arm64"}, {Major: 1, Pre: "alpha1"}, {Major: 1, Pre: "alpha01"}, {Major: 1, Pre: "alpha1", Build: "x"},
+			{}, {Major: 1, Minor: 2, Patch: 3}, {Major: 1, Pre: "alpha.1"}, {Major: 1, Build: "001"}, {Major: max, Minor: max, Patch: max, Pre: "rc.1-x", Build: "b.2"},
 			{Minor: 10, Pre: strings.Repeat("a", 70)}, {Pre: "é", Build: "\x00"}} {
 			v.Pkg = pkg
 			cs = append(cs, v)
@@ -199,6 +214,10 @@ func TestCheck(t *testing.T) {
 				for i := lo; i < hi; i++ {
 					base := vals[int(i)/nf]
 					base.Flags = int(i) % nf
+					if pkg == "sem" { // flags outer, values inner: consecutive versions are formatted with the same flags
+						base = vals[int(i)%len(vals)]
+						base.Flags = int(i) / len(vals)
+					}
 					full := nf <= 4 || base.Flags == 0 || base.Flags == 64 || base.Flags == 63 || base.Flags == 127 || r.Thorough()
 					for _, p := range prefixes(pkg, full) {
 						for _, sp := range spares {
